@@ -1,7 +1,7 @@
 (* C19 -- the property theorems and nothing else.  The constants c19_* are regenerated from the current sources
    (Gen/FloatToStringC19.v) on every run, so the instance theorems below are re-checked against what the headers say now. *)
 From Coq Require Import List ZArith NArith Bool Lia.
-From Kenlm Require Import Gen.FloatToStringC19 C19.FormatModel C19.FormatProofs C19.FormatInstances C18.FilePieceModel.
+From Kenlm Require Import Gen.FloatToStringC19 Gen.FileStreamC19 C19.FormatModel C19.FormatProofs C19.FormatInstances C18.FilePieceModel.
 Import ListNotations.
 Local Open Scope Z_scope.
 
@@ -64,3 +64,13 @@ Theorem C19_no_extra_chars :
   (forall z, 0 <= z -> forallb is_digit (print_unsigned z) = true) /\
   (forall z, z < 0 -> exists ds, print_signed z = 45%N :: ds /\ forallb is_digit ds = true).
 Proof. exact no_extra_chars. Qed.
+
+(* the stream's own buffer: for every buffer_size the constructor is given, end_ lies within what was malloc'ed and every
+   reservation Ensure(amount <= kToStringMaxBytes) hands out lies inside the allocation (both expressions regenerated from
+   util/file_stream.hh; with C19_reserved_suffices: every number is formatted inside allocated memory) *)
+Theorem C19_filestream_reservation : forall n amount current,
+  0 <= n -> 0 <= current <= c19_fs_capacity n -> 0 <= amount <= c19_ktostring_max_bytes ->
+  c19_fs_capacity n <= c19_fs_alloc n /\
+  0 <= fs_ensure (c19_fs_capacity n) amount current /\
+  fs_ensure (c19_fs_capacity n) amount current + amount <= c19_fs_alloc n.
+Proof. exact filestream_reservation. Qed.
